@@ -3,7 +3,7 @@ CONSTANTS
  NH = 2
  K = {0,1,8,9,16}
  V = {1}
- MaxOps = 6
+ MaxOps = 5
  NB0 = 1
  MapOps = TRUE
  HeadBug = FALSE
